@@ -56,6 +56,14 @@ func (k Keeper) RequestRandom(
 ) (types.Request, error) {
 	currentHeight := ctx.BlockHeight()
 	destHeight := currentHeight + int64(blockInterval)
+	// the interval is a uint64: reject values for which the destination height wraps around
+	// to a height before the current one (such an entry would never be drained)
+	if int64(blockInterval) < 0 || destHeight < currentHeight {
+		return types.Request{}, errorsmod.Wrapf(
+			types.ErrInvalidHeight,
+			"block interval %d is out of range at height %d", blockInterval, currentHeight,
+		)
+	}
 
 	// get tx hash
 	txHash := types.SHA256(ctx.TxBytes())
